@@ -55,7 +55,7 @@ def overlay(instr=False):
     open(p, "w").write(json.dumps({"Replace": repl}, indent=1, sort_keys=True))
     return p
 
-INSTR_FILES = ["workflow/workflow.go", "internal/step/plugin/provider.go", "internal/step/foreach/provider.go", "internal/infer/infer.go"]
+INSTR_FILES = ["workflow/workflow.go", "internal/step/plugin/provider.go", "internal/step/foreach/provider.go"]
 
 def run_instr():
     tool = os.path.join(BUILD, "instr-tool")
